@@ -221,6 +221,10 @@ func (p *Parser) MergeFile(path string) error {
 		return err
 	}
 
+	for _, doc := range f.docs {
+		doc.PopMapValue("$parent")
+	}
+
 	return p.mergeFile(f)
 }
 
